@@ -33,7 +33,8 @@ impl Pkg {
     }
 }
 
-const NAMES: &[&str] = &["b", "b", "b", "b1", "b10", "foo-bar", "FOO-BAR", "foo-BAR", "foobar", "c"];
+// lower-case only: the component-model encoding rejects upper-case package names
+const NAMES: &[&str] = &["b", "b", "b", "b1", "b10", "foo-bar", "foobar", "foo", "c"];
 const NUMS: &[&str] = &["0", "1", "2", "10", "1", "0"];
 const PRE_IDS: &[&str] = &["a", "b", "rc", "RC", "rc1", "rc-1", "rcA", "rc-a", "a-b", "a--b", "x", "X", "1", "0a", "alpha", "Alpha", "-a", "a-"];
 const BUILD_IDS: &[&str] = &["x", "X", "a", "b", "a-b", "001", "sha-1f", "SHA", "rc", "a--b"];
@@ -139,8 +140,8 @@ fn gen_set(rng: &mut Rng) -> Vec<Pkg> {
                     let nm = match base.name.as_str() {
                         "b" => *rng.pick(&["b1", "b10"]),
                         "b1" | "b10" => "b",
-                        "foo-bar" => *rng.pick(&["FOO-BAR", "foo-BAR", "foobar"]),
-                        "FOO-BAR" | "foo-BAR" => "foo-bar",
+                        "foo-bar" => *rng.pick(&["foobar", "foo"]),
+                        "foobar" | "foo" => "foo-bar",
                         other => other,
                     };
                     Pkg { name: nm.to_string(), version: base.version.clone().or_else(|| Some(gen_version(rng))), iface: String::new() }
@@ -176,7 +177,7 @@ fn directed() -> Vec<Vec<Pkg>> {
         vec![p("b", "1.0.0-a.b-c"), p("b", "1.0.0-a-b+c")],
         vec![p("b", "1.0.0-rc"), p("b", "1.0.0-RC")],
         vec![p("b", "1.0.0-rcA"), p("b", "1.0.0-rc-a")],
-        vec![p("foo-bar", ""), p("FOO-BAR", "")],
+        vec![p("foo-bar", "1.0.0"), p("foo-bar", "2.0.0"), p("foobar", "1.0.0"), p("foobar", "2.0.0"), p("foo", "1.0.0")],
         vec![p("b", "10.0.0"), p("b", "1.0.0"), p("b1", "0.0.0"), p("b1", "0.0.1")],
         vec![p("b", "1.0.0"), p("b", "2.0.0"), p("b", ""), p("c", "1.0.0")],
     ]
@@ -238,6 +239,33 @@ fn classify(p: &Pkg, q: &Pkg) -> String {
         return "path:version-mangling-collision:word-splitting".into();
     }
     "path:version-mangling-collision:other".into()
+}
+
+/// "Valid input" is defined operationally (DESIGN 2.3): wit-parser accepts the package AND its
+/// component-model encoding validates.
+fn encodable(r: &Resolve, id: PackageId) -> Result<(), String> {
+    let bytes = match catch(|| wit_component::encode(r, id)) {
+        Ok(Ok(b)) => b,
+        Ok(Err(e)) => return Err(format!("{e:#}")),
+        Err((m, _)) => return Err(format!("encoder panic: {m}")),
+    };
+    wasmparser::Validator::new_with_features(wasmparser::WasmFeatures::all()).validate_all(&bytes).map(|_| ()).map_err(|e| format!("{e:#}"))
+}
+
+fn reason_class(e: &str) -> String {
+    // keep counters few: strip quoted / backticked specifics
+    let mut out = String::new();
+    let mut skip = false;
+    for c in e.chars() {
+        if c == '`' || c == '"' {
+            skip = !skip;
+            continue;
+        }
+        if !skip {
+            out.push(c);
+        }
+    }
+    clip(out.rsplit(':').next().unwrap_or(&out).trim(), 60)
 }
 
 struct Built {
@@ -305,6 +333,13 @@ fn run_set(ns: &str, set: &[Pkg], e2e: bool, idx: u64, seed: u64, rep: &mut Repo
             return;
         }
     };
+    for id in &b.ids {
+        if let Err(e) = encodable(&b.resolve, *id) {
+            rep.count("sets_not_component_encodable(discarded)");
+            rep.count(&format!("not encodable: {}", reason_class(&e)));
+            return;
+        }
+    }
     let names: Vec<String> = match catch(|| b.ids.iter().map(|id| name_package_module(&b.resolve, *id)).collect()) {
         Ok(n) => n,
         Err((m, l)) => {
@@ -371,6 +406,11 @@ fn run_set(ns: &str, set: &[Pkg], e2e: bool, idx: u64, seed: u64, rep: &mut Repo
             return;
         }
     };
+    if let Err(e) = witgen::check_encodable(&r, world) {
+        rep.count("e2e_root_world_not_encodable(discarded)");
+        rep.count(&format!("not encodable: {}", reason_class(&format!("{e:#}"))));
+        return;
+    }
     let mut opts = wit_bindgen_rust::Opts::default();
     opts.generate_all = true;
     let mut files = Files::default();
@@ -441,9 +481,21 @@ fn main() {
          often near twins of each other); every pair is compared; distinct = package sets (exact ids) containing at least one pair with the same name; \
          the first `e2e` sets and all directed sets also go through the Rust generator",
     );
-    rep.assume("sets rejected by wit-parser (invalid semver after a twin edit) are discarded and counted");
+    rep.assume("valid input = wit-parser accepts every package AND wit_component::encode of every package (and of the e2e root world) passes wasmparser validation; other sets are discarded and counted");
     rep.assume("e2e judges only duplicate sibling `mod` items in the syn-parsed output; generator errors/panics are inconclusive here (C16's business)");
     let ns = "a";
+    // self-test of the validity filter: an upper-case package name parses but must not encode
+    match build(ns, &[Pkg { name: "FOO-BAR".into(), version: None, iface: "i".into() }]) {
+        Ok(b) => match encodable(&b.resolve, b.ids[0]) {
+            Err(e) => {
+                rep.extra.insert("selftest_uppercase_package_rejected_by_encoding".into(), json!(clip(&e, 120)));
+            }
+            Ok(()) => rep.inconclusive("C27: validity filter self-test: package a:FOO-BAR encodes; filter may be ineffective"),
+        },
+        Err(e) => {
+            rep.extra.insert("selftest_uppercase_package_rejected_by_parser".into(), json!(clip(&e, 120)));
+        }
+    }
     let stream = args.str("stream", "");
     if let Some(i) = only_case(&args) {
         if stream == "directed" {
